@@ -31,7 +31,7 @@ Proof.
   unfold exec. destruct (fault && is_storage c); cbn [fst]; [destruct (is_call c); auto|].
   destruct c; cbn [is_call fst];
     try (match goal with |- context [exec_db ?c0 ?d] => destruct (exec_db c0 d) as [d' r'] end; cbn [fst w_ln]; auto); auto.
-  - destruct (l_createerr _); cbn [fst w_ln set_ln l_look]; auto.
+  - destruct (l_createerr _ || _); cbn [fst w_ln set_ln l_look]; auto.
   - destruct (l_inverr _); cbn [fst]; auto. destruct (find _ _); cbn [fst]; auto.
   - cbn [w_ln l_pay]. destruct (pop h (l_pay (w_ln w)) (mkAns 0 1)) as [a rest]. cbn [fst w_ln set_ln l_look]. auto.
   - cbn [w_ln l_look]. destruct (pop h (l_look (w_ln w)) (mkAns 3 0)) as [a rest] eqn:E. cbn [fst w_ln set_ln l_look].
